@@ -299,6 +299,11 @@ def judge(obs, case, plan, outcome, label, constraint=None):  # noqa: C901, PLR0
                 obs.violation(f"flag-not-recorded:{flag}:{tkind}", f"{exc} left a step but statistic {flag} is False; {ctxs}")
             if float(stats["accept_stat"]) != 0.0 and flag is not None:
                 obs.violation(f"accept_stat-nonzero-after-failure:{tkind}", f"accept_stat={stats['accept_stat']} although {exc} cut the trajectory; {ctxs}")
+        # converse: a solver-failure flag may only be set by an exception that left a step of *this* transition
+        for flag, exc in (("convergence_error", "ConvergenceError"), ("non_reversible_step", "NonReversibleStepError")):
+            if stats.get(flag) and exc not in raised:
+                obs.violation(f"flag-set-without-failure:{flag}:{tkind}",
+                              f"statistic {flag} is True although no {exc} left a step of this transition (exceptions seen: {raised}); {ctxs}")
         if rec["fired"]:
             if raised:
                 cls = f"rejected-with-{raised[0]}"
